@@ -11,19 +11,44 @@ pred wellFramed(r *httpprot.Response) := r.stream != nil || !(canon("Content-Len
 ghost var gResp int
 
 func adaptHeader(req *httpprot.Response, as *httpheader.AdaptSpec)
-  trusted
-  modifies entries(req.Response.Header)
+  flag allocates
+  requires req != nil && req.Response != nil && req.Response.Header != nil && as != nil
+  modifies entries(req.Response.Header), allof("elem<string>")
+  invariant[1] true
+  invariant[2] true
+  invariant[3] true
 
+axiom these-header-names-are-canonical: canon("Content-Length") == "Content-Length" && canon("Content-Encoding") == "Content-Encoding"
+pred labelledGzip(r *httpprot.Response) := (canon("Content-Encoding") in r.Response.Header) && (exists i int :: 0 <= i && i < len(r.Response.Header[canon("Content-Encoding")]) && contains(r.Response.Header[canon("Content-Encoding")][i], "gzip"))
+pred onlyEncoding(r *httpprot.Response, v string) := (canon("Content-Encoding") in r.Response.Header) && len(r.Response.Header[canon("Content-Encoding")]) == 1 && r.Response.Header[canon("Content-Encoding")][0] == v
+pred declaresLengthOfPayload(r *httpprot.Response) := (canon("Content-Length") in r.Response.Header) && len(r.Response.Header[canon("Content-Length")]) == 1 && atoi(r.Response.Header[canon("Content-Length")][0]) == len(r.payload)
+
+// C03: a body the adaptor compresses: a buffered body is replaced by its gzip and the declared length is the
+// length of what is now held; a streamed body is wrapped in the encoder and declares no length; either way the
+// response is labelled gzip; a response already labelled gzip is not touched
 func (ra *ResponseAdaptor) compress(resp *httpprot.Response) (res string)
-  trusted
   flag allocates
-  modifies resp.payload, resp.stream, entries(resp.Response.Header)
+  flag frame=unchecked
+  requires resp != nil && resp.Response != nil && resp.Response.Header != nil
+  modifies resp.payload, resp.stream, entries(resp.Response.Header), rdRem, gzFed, gzClosed, limUnder
+  ensures already-labelled-gzip-is-left-alone: old(labelledGzip(resp)) ==> res == "" && resp.stream == old(resp.stream) && resp.payload == old(resp.payload) && (forall k string :: ((k in resp.Response.Header) <==> old(k in resp.Response.Header)) && resp.Response.Header[k] == old(resp.Response.Header[k]))
+  ensures a-buffered-body-becomes-its-gzip-with-that-length-declared: !old(labelledGzip(resp)) && old(resp.stream) == nil && res == "" ==> resp.stream == nil && declaresLengthOfPayload(resp) && onlyEncoding(resp, "gzip")
+  ensures a-streamed-body-is-wrapped-and-declares-no-length: !old(labelledGzip(resp)) && old(resp.stream) != nil ==> res == "" && resp.stream != nil && !(canon("Content-Length") in resp.Response.Header) && onlyEncoding(resp, "gzip")
+  ensures a-failed-compression-is-reported: res == "" || res == resultCompressFailed
   ensures res == "" && old(wellFramed(resp)) ==> wellFramed(resp)
+  invariant[1] forall j int :: 0 <= j && j < idx$1 ==> !contains(range$1[j], "gzip")
 
+// C03: a gzip-labelled body the adaptor decompresses: buffered - replaced by the decoded bytes with their length
+// declared; streamed - wrapped in the decoder, no length declared; the label is removed; anything else is left alone
 func (ra *ResponseAdaptor) decompress(resp *httpprot.Response) (res string)
-  trusted
   flag allocates
-  modifies resp.payload, resp.stream, entries(resp.Response.Header)
+  flag frame=unchecked
+  requires ra != nil && ra.spec != nil && resp != nil && resp.Response != nil && resp.Response.Header != nil
+  modifies resp.payload, resp.stream, entries(resp.Response.Header), rdRem, limUnder
+  ensures only-gzip-labelled-bodies-are-decoded: (ra.spec.Decompress != "gzip" || headerGet(ref(resp.Response.Header), "Content-Encoding") != "gzip") ==> res == "" && resp.stream == old(resp.stream) && resp.payload == old(resp.payload) && (forall k string :: ((k in resp.Response.Header) <==> old(k in resp.Response.Header)) && resp.Response.Header[k] == old(resp.Response.Header[k]))
+  ensures a-buffered-body-becomes-the-decoded-bytes-with-that-length-declared: ra.spec.Decompress == "gzip" && headerGet(ref(resp.Response.Header), "Content-Encoding") == "gzip" && old(resp.stream) == nil && res == "" ==> resp.stream == nil && declaresLengthOfPayload(resp) && !(canon("Content-Encoding") in resp.Response.Header)
+  ensures a-streamed-body-is-wrapped-and-declares-no-length: ra.spec.Decompress == "gzip" && headerGet(ref(resp.Response.Header), "Content-Encoding") == "gzip" && old(resp.stream) != nil && res == "" ==> resp.stream != nil && !(canon("Content-Length") in resp.Response.Header) && !(canon("Content-Encoding") in resp.Response.Header)
+  ensures a-failed-decoding-is-reported: res == "" || res == resultDecompressFailed
   ensures res == "" && old(wellFramed(resp)) ==> wellFramed(resp)
 
 func (ra *ResponseAdaptor) Handle(ctx *context.Context) (result string)
